@@ -334,9 +334,27 @@ def seek_case(rng, mode, allow_past_end=False):
 
 def run_C10(ctx):
     cases = []
+    rng = ctx.rng
     for mode in list(CTR_FLAVORS) + ["belt"]:
         for _ in range(ctx.n(90, 1500)):
             cases.append(seek_case(ctx.rng, mode))
+        # sweep of the seek moment: after every number of whole blocks t produced by one request (started on or inside a block),
+        # seek a little back — into the block just produced or the one before — or ahead, and read on
+        pool = [x for x in matrix_for(mode) if x[0] <= 16]
+        cfgs = rng.sample(pool, min(3, len(pool)))
+        for t in range(1, (SWEEP_N_THOROUGH if ctx.thorough else SWEEP_N) // 2 + 1):
+            bs, w = cfgs[t % len(cfgs)]
+            key = rb(rng, 16)
+            iv, cls = stream_iv(rng, mode, bs, key)
+            c = Case("stream", mode, bs, w, key, iv, cls_iv=cls, cls_sweep=1)
+            k0 = rng.randrange(1, bs) if t % 2 else 0
+            L = (bs - k0) % bs + t * bs + (rng.randrange(1, bs) if t % 3 == 0 else 0)
+            q = k0 + L
+            target = max(0, q - rng.choice([1, bs - 1, bs, bs + 1, rng.randrange(1, 2 * bs + 1)])) if t % 5 else q + rng.randrange(0, 2 * bs)
+            if k0:
+                c.ops.append(f"apply {hx(rb(rng, k0))}")
+            c.ops += [f"apply {hx(rb(rng, L))}", f"seek u64 {target}", f"apply {hx(rb(rng, bs + 1))}", "pos u64"]
+            cases.append(c)
     res = ctx.run(cases)
     # reported positions and outcome kinds: absolute (the byte position is tracked from the requested seeks);
     # bytes produced after a seek: compared with the implementation's OWN keystream at that offset, obtained
